@@ -16,7 +16,7 @@ def files_of(d):
     return sorted(set(re.findall(r'^\+\+\+ b/(\S+)', open(d + 'patch.diff').read(), re.M)))
 
 def mutant_rows(which):
-    rows, stats = [], {'n': 0, 'own': 0, 'notviol': 0, 'missed_first': 0}
+    rows, stats = [], {'n': 0, 'own': 0, 'notviol': 0, 'missed_first': 0, 'notrep': 0}
     for d in sorted(glob.glob('/verif/seeded/C*/')):
         m = json.load(open(d + 'meta.json'))
         if m['mutant'] not in which:
@@ -41,6 +41,8 @@ def mutant_rows(which):
             stats['notviol'] += 1
         if 'MISSED' in note or 'missed by' in note or 'MACHINERY error' in note:
             stats['missed_first'] += 1
+        if 'NOT REPORTED' in note:
+            stats['notrep'] += 1
         t = re.sub(r'^(C\d+ / )?M\d\s*[-:–]\s*', '', title_of(d))
         rows.append(f"| {m['property']}-{m['mutant']} | {', '.join(files_of(d))} | {t[:130]} | {'; '.join(res)} | {unit} | {note} |")
     return rows, stats
@@ -128,10 +130,16 @@ what each one needed.
 The sub-agents were told the titles of the four earlier changes of their property and that all
 had been found by systematic bounded-exhaustive checking, and were asked to aim at what such
 a checker cannot afford: specific multi-byte constants and interior addresses, long histories,
-counters that must reach hundreds or thousands, three-feature interactions, tables that fill up.
-{s3['n']} changes, {s3['own']} reported by the property's own quick check ({s3['missed_first']} only after a strengthening,
-{s3['notviol']} judged not to violate the property as stated).  Changes that are still not reported are
-listed with the reason; they mark the honest limit of the bounds chosen (§9).
+counters that must reach hundreds or thousands, three-feature interactions, tables that fill up,
+rarely used peripheral registers.  {s3['n']} changes.  Most of them are *new features* (a DMA controller,
+watchdog password registers, interrupt priority registers, read-only segments, a loop accelerator,
+native libgcc helpers, host-service gates) rather than slips in existing code.  **{s3['own']} are reported by
+the property's own quick check, {s3['missed_first']} of them only by units written after the change was delivered**
+(long programs in lock step, loaded machine, I/O-page backgrounds, word sweeps of the register blocks,
+queue histories, I/O-register values at a boundary, sequences with trace logging - each closes a class);
+**{s3['notrep']} are not reported** and are kept as recorded limits of the bounds (§9): magic 32-bit constants,
+a seven-instruction magic window, a peripheral that needs four to five cooperating register values,
+behaviour that depends on the instruction trace being printed.  {s3['notviol']} judged not to violate the property as stated.
 
 {HEAD}
 """ + "\n".join(r3) + "\n")
